@@ -5,13 +5,22 @@ D: every shape of every loadable sample (all geometry kinds, skinned and unskinn
 import json
 
 from props import filecamp
+from props import segrefit
 from props import shapeparse as SP
 from vlib import common as C
 
-LEAN_MODULES = ["NiflyVerif.Props.C09"]
+LEAN_MODULES = ["NiflyVerif.Props.C09", "NiflyVerif.Props.SegRefit"]
 ASSUMPTIONS = ["strip-based shapes are exempt from the exact triangle statement (as the property says); their indices must stay in range",
                "float attributes are opaque payload compared by bit pattern"]
 TRI_LIST_TYPES = {"NiTriShape", "BSTriShape", "BSSubIndexTriShape", "BSMeshLODTriShape", "BSDynamicTriShape", "BSSegmentedTriShape", "BSLODTriShape"}
+
+
+def rot_norm(t):
+    """a triangle up to rotation of its corners (the winding is kept)"""
+    t = list(t)
+    while t[0] > t[1] or t[0] > t[2]:
+        t = t[1:] + t[:1]
+    return tuple(t)
 
 
 def remap(D, nv):
@@ -103,10 +112,15 @@ def check_delete(B, A, D):
                 why.append(f"partition {k}: {p['nBoneIndices']} bone index tuples for {p['numVertices']} vertices")
         if A["DISMEMBER"] is not None and len(A["DISMEMBER"]) != P["n"]:
             why.append(f"dismember partition list has {len(A['DISMEMBER'])} entries for {P['n']} partitions")
-    # per-triangle partition / segment labels follow their triangles
+    # per-triangle partition / segment labels follow their triangles (partition labels are found by looking the triangle up by
+    # its corners: with two equal triangles in one shape they are not defined per triangle, such shapes are left out)
+    nrm = [rot_norm(t) for t in B["T"]]
+    has_dup = len(set(nrm)) != len(nrm)
     if B["type"] in TRI_LIST_TYPES and B["STRIPS"] is None:
         keep = [k for k, t in enumerate(B["T"]) if all(p in m for p in t)]
         for key in ("TRIPARTS", "SEGTRI"):
+            if key == "TRIPARTS" and has_dup:
+                continue
             b = B[key][1] if key == "TRIPARTS" and B[key] else B[key]
             a = A[key][1] if key == "TRIPARTS" and A[key] else A[key]
             if b is None or a is None or len(b) != len(B["T"]):
@@ -149,6 +163,11 @@ def run(ctx):
     res = ctx.res
     rng = C.mkrng(ctx.seed, "c09")
     lines = []
+    if ctx.replay and json.load(open(ctx.replay))["line"].startswith("c17.refit"):
+        viol, st = segrefit.campaign(ctx, rng, 0, only=json.load(open(ctx.replay))["line"])
+        segrefit.report(res, viol, "C09")
+        res.coverage.update(evaluations=1, distinct_nontrivial=1, refit=st)
+        return
     if ctx.replay:
         lines = [json.load(open(ctx.replay))["line"]]
     else:
@@ -178,6 +197,18 @@ def run(ctx):
                 sd = rng.randrange(1, 10**6)
                 for sub in gen_subsets(rng, nv, ctx.tier):
                     lines.append(f"c09.run mesh:{ver}:{nv}:{nt}:{sd}:{fl} 0 {','.join(map(str, sub))} reload")
+        # skinned meshes whose NiSkinPartition holds several partitions: through the bone limit (18 bones per partition for OB/FO3:
+        # 40 bones) or as explicit partitions of consecutive triangles (LE / SSE)
+        for ver, fl, nb, parts in [("ob", "n", 40, 1), ("fo3", "nc", 40, 1), ("fo3", "n", 6, 3), ("sk", "n", 6, 3), ("sse", "nc", 6, 4),
+                                   ("sse", "n", 100, 1)]:
+            for nv in (12, 60, 300):
+                nt = 2 * nv
+                sd = rng.randrange(1, 10**6)
+                for sub in gen_subsets(rng, nv, ctx.tier):
+                    lines.append(f"c09.run mesh:{ver}:{nv}:{nt}:{sd}:{fl}:{nb}:{parts} 0 {','.join(map(str, sub))} reload")
+                a = sorted(rng.sample(range(nv), max(1, nv // 5)))
+                b = sorted(rng.sample(range(nv - len(a)), max(1, (nv - len(a)) // 5)))
+                lines.append(f"c09.run mesh:{ver}:{nv}:{nt}:{sd}:{fl}:{nb}:{parts} 0 {','.join(map(str, a))};{','.join(map(str, b))} reload")
         # exhaustive: every subset of a 5-vertex mesh
         for mask in range(1, 32):
             sub = [i for i in range(5) if mask >> i & 1]
@@ -219,6 +250,13 @@ def run(ctx):
             else:
                 S, R = SP.parse(tail[0][6:]), SP.parse(tail[1][9:])
                 for key in ("nv", "V", "UV", "T", "C"):
+                    if key == "T" and S["PARTS"] and S["T"] is not None and R["T"] is not None:
+                        # a skinned shape's triangles are stored in its skin partitions (SSE) and come back with their corners
+                        # rotated and grouped by partition: the same geometry
+                        if sorted(map(rot_norm, S["T"])) != sorted(map(rot_norm, R["T"])):
+                            bad.append((line, "after save and reload the triangles differ from the saved model (as a multiset up to corner rotation)"))
+                            break
+                        continue
                     if S[key] != R[key] and not (S[key] is None or R[key] is None):
                         bad.append((line, f"after save and reload {key} differs from the saved model"))
                         break
@@ -236,10 +274,16 @@ def run(ctx):
     if mism and not bad:
         res.violation("correspondence", dict(what="correspondence Mesh/Delete.lean <-> notifyVerticesDelete no longer checks: " + mism[0][1],
                                              broken="correspondence c09 deleteVerts", line=mism[0][0], mismatches=len(mism)), no_input=True)
+    rst = None
+    if not ctx.replay:
+        rviol, rst = segrefit.campaign(ctx, C.mkrng(ctx.seed, "c09-refit"), 100 if ctx.tier == "quick" else 1500)
+        segrefit.report(res, rviol, "C09")
     res.coverage.update(
+        segment_refit_after_vertex_deletion=rst,
         evaluations=len(lines), distinct_nontrivial=nontrivial, traces_validated_against_impl=len(mlines),
         rule="every shape of every loadable sample (NiTriShape, NiTriStrips, BSTriShape, BSSubIndexTriShape, BSDynamicTriShape, "
-             "BSMeshLODTriShape; skinned and unskinned) and constructed meshes in 6 versions (1..3000/65535 vertices) × index sets "
+             "BSMeshLODTriShape; skinned and unskinned), constructed meshes in 6 versions (1..3000/65535 vertices) and constructed skinned "
+             "meshes with 2..6 skin partitions (bone-limit splits for OB/FO3/SSE, explicit partitions for FO3/LE/SSE) × index sets "
              "{first, last, prefix, suffix, few random, half random, all} + a second deletion + every subset of a 5-vertex mesh; each "
              "followed by save and reload. non-trivial = deletions that removed some but not all vertices and left triangles",
         exhaustive=True, model_vs_impl_mismatches=len(mism), oracle_failures=len(bad),
